@@ -228,8 +228,11 @@ def getHeader1 (m : Msg) (name : Bytes) : Option Bytes :=
 
 /-! ## modification and output -/
 
-/-- `message_set_header`. -/
-def setHeader (m : Msg) (name val : Bytes) : Msg :=
+/-- The loop at the head of `message_set_header` (/repo 4ac7c48): every `'\n'` and `'\r'` of the value becomes a space. -/
+def headerSafe (v : Bytes) : Bytes := v.map fun c => if c == 10 || c == 13 then 32 else c
+
+/-- `message_set_header` after that loop: the table update with the value as it is. -/
+def setHeaderRaw (m : Msg) (name val : Bytes) : Msg :=
   match searchHeader m.headers name with
   | none =>
     let h : Hdr := { id := m.headers.length + 1, key := name, val := val }
@@ -241,6 +244,9 @@ def setHeader (m : Msg) (name val : Bytes) : Msg :=
     match m.headers[idx]? with
     | none => m
     | some h => { m with headers := before ++ [{ h with val := val }] ++ after }
+
+/-- `message_set_header(msg, header, val)`: line breaks of the value are replaced in place, then the table is updated. -/
+def setHeader (m : Msg) (name val : Bytes) : Msg := setHeaderRaw m name (headerSafe val)
 
 /-- The bytes `message_write` prints for a table in the given order. -/
 def render (hs : List Hdr) (body : Bytes) : Bytes :=
